@@ -212,3 +212,19 @@ package ast
 //@ func (SyntaxError).Message assumed "error text lookup (ParsingError.Message: table lookup with fmt fallback)"
 //@ func (SyntaxError).description props C07
 //@   requires -4611686018427387904 <= self.Pos && self.Pos <= len(self.Src) + 16
+
+// nodeAt / pairAt on loaded (non-lazy) containers: a negative index addresses nothing,
+// whether or not some members have been unset (dead slots).  (C14: "or report that it
+// does not exist"; C15: dead slots are not observable.)
+//@ func (*Node).nodeAt props C14,C15
+//@   requires self != nil && self.t & _V_LAZY == 0 && self.p != nil && lnWF(cast(*linkedNodes, self.p)) && cast(*linkedNodes, self.p).size <= 70368744177664
+//@   ensures i < 0 ==> result == nil
+//@   loop 0: invariant 0 <= j && j <= l && l == cast(*linkedNodes, self.p).size && lnWF(cast(*linkedNodes, self.p))
+//@   loop 0: invariant i0 < 0 ==> i < 0
+//@   loop 0: decreases l - j
+//@ func (*Node).pairAt props C14,C15
+//@   requires self != nil && self.t & _V_LAZY == 0 && self.p != nil && lpWF(cast(*linkedPairs, self.p)) && cast(*linkedPairs, self.p).size <= 70368744177664
+//@   ensures i < 0 ==> result == nil
+//@   loop 0: invariant 0 <= j && j <= l && l == cast(*linkedPairs, self.p).size && lpWF(cast(*linkedPairs, self.p))
+//@   loop 0: invariant i0 < 0 ==> i < 0
+//@   loop 0: decreases l - j
